@@ -364,7 +364,11 @@ func (r *Run) checkTokenResponse(grantKey string, g *Grant, cs *ClientSpec, res 
 			r.violate("C05", "refresh-token-without-refresh-scope", grantKey, "a refresh token was issued although the grant %v holds none of the configured refresh scopes %v", g.Scopes, rs)
 		}
 		if (grantKey == "authorization_code" || grantKey == "device_code") && !has(cs.GrantTypes, "refresh_token") {
-			r.violate("C05", "refresh-token-to-client-without-grant", grantKey, "client %s is not registered for refresh_token but received one", cs.ID)
+			key := grantKey
+			if g.Params["had_refresh_grant_at_authorization"] == "1" {
+				key += ":registration-record-replaced-after-authorization"
+			}
+			r.violate("C05", "refresh-token-to-client-without-grant", key, "client %s is not registered for refresh_token but received one", cs.ID)
 		}
 	}
 	if at != nil && at.Life > 0 && at.ExpiresIn > 0 {
